@@ -267,6 +267,37 @@ def rules(rep, m):
             if c["kind"] == "CallExpr" and callee_ref(c):
                 if "observer" in gx.canon(kids(c)[1]) if len(kids(c)) > 1 else False:
                     fwd.append(c)
+    # path-sensitive: every return path of the signal routine walks the observer list (helpers inlined)
+    from ..engines import trace as TR
+    pst = {"paths": 0, "bad": []}
+
+    def cb(dom, flow, s_, tr, why, where, ev):
+        if not why.startswith("return"):
+            return
+        pst["paths"] += 1
+        walked = any(e[0] == "loop" and any("observers" in v for _, v in e[2]) for e in tr) or \
+            any(e[0] == "assume" and "observers" in e[1] for e in tr)
+        if not walked:
+            pst["bad"].append(where)
+    TR.run_traces(m, gs, cb)
+    r4.instance("paths through the signal routine that walk the observer list: %d of %d"
+                % (pst["paths"] - len(pst["bad"]), pst["paths"]))
+    if pst["bad"] or pst["paths"] == 0:
+        rep.finding(r4, gs.name, "forward:not-on-every-path", "a path through the signal routine returns (at %s) without "
+                    "forwarding the signal to the registered observers: a condition waiter whose predicate became true "
+                    "through this release is not resumed" % pst["bad"][:2], where=m.rel(gs.where))
+        r4.fail()
+    else:
+        r4.ok()
+    if not fwd:
+        # the forwarding call may live in a static helper: look there as well
+        for key, n_ in m.direct_callees(gs):
+            hf = m.funcs.get(key)
+            if hf is not None and hf.static:
+                hx = FuncCtx(m, hf)
+                for c in walk(hf.body):
+                    if c["kind"] == "CallExpr" and callee_ref(c) and len(kids(c)) > 1 and "observer" in hx.canon(kids(c)[1]):
+                        fwd.append(c)
     if not fwd:
         rep.finding(r4, gs.name, "forward:none", "signalling a guard does not forward to its observers",
                     where=m.rel(gs.where))
